@@ -52,6 +52,7 @@ type entry struct {
 	Type       string   `json:"type"` // image | repository | registry
 	SRepo      string   `json:"srepo"`
 	STag       string   `json:"stag"`
+	TReg       string   `json:"treg"` // registry of the target: tgt | src (a mirror inside the source registry)
 	TRepo      string   `json:"trepo"`
 	TTag       string   `json:"ttag"`
 	Allow      []filter `json:"allow"`
@@ -424,11 +425,35 @@ func lost(before, after map[string]*simreg.Host) [][]any {
 // ---------------------------------------------------------------------------
 
 type hostHandler struct {
-	net  *simreg.Net
-	name string
+	net    *simreg.Net
+	name   string
+	jitter *jitter
+}
+
+// jitter delays requests by a few hundred microseconds, as a fixed function of the scenario and
+// the arrival count, to vary the interleaving of entries that regsync runs in parallel.  It has no
+// part in any verdict.
+type jitter struct {
+	mu   sync.Mutex
+	n    uint64
+	seed uint64
+}
+
+func (j *jitter) wait() {
+	if j == nil {
+		return
+	}
+	j.mu.Lock()
+	j.n++
+	x := (j.n + j.seed) * 0x9E3779B97F4A7C15
+	j.mu.Unlock()
+	if d := (x >> 40) % 5; d > 1 {
+		time.Sleep(time.Duration(d) * 150 * time.Microsecond)
+	}
 }
 
 func (hh hostHandler) ServeHTTP(w http.ResponseWriter, r *http.Request) {
+	hh.jitter.wait()
 	r2 := r.Clone(r.Context())
 	r2.URL.Scheme, r2.URL.Host, r2.Host, r2.RequestURI = "http", hh.name, hh.name, ""
 	resp, err := hh.net.RoundTrip(r2)
@@ -533,7 +558,39 @@ var backupTpl = map[string]string{
 	"othreg":  `oth.test/bk/{{.Ref.Repository}}:{{.Ref.Tag}}-old`,
 }
 
-func writeConfig(fn string, c conf, u *universe, addr map[string]string) {
+// optLines renders the options of an entry that the `defaults` section knows too.  explicit: also
+// write the switches that are off and the full default media type list.
+func optLines(e entry, indent string, explicit bool) string {
+	var b strings.Builder
+	mts := e.Mts
+	if len(mts) == 0 && explicit {
+		mts = []string{"dockerman", "dockerlist", "ociman", "ociindex"}
+	}
+	if len(mts) > 0 {
+		b.WriteString(indent + "mediaTypes:\n")
+		for _, m := range mts {
+			fmt.Fprintf(&b, "%s  - %s\n", indent, mtLong[m])
+		}
+	}
+	if e.Backup != "" && e.Backup != "none" {
+		fmt.Fprintf(&b, "%sbackup: %s\n", indent, yq(backupTpl[e.Backup]))
+	}
+	for _, sw := range []struct {
+		k string
+		v bool
+	}{{"referrers", e.Referrers}, {"digestTags", e.DigestTags}, {"fastCheck", e.FastCheck}, {"forceRecursive", e.Force}} {
+		if sw.v || explicit {
+			fmt.Fprintf(&b, "%s%s: %v\n", indent, sw.k, sw.v)
+		}
+	}
+	return b.String()
+}
+
+// writeConfig spells the abstract configuration as YAML.  variant (a fixed function of the scenario
+// id) picks one of three equivalent spellings of the options that `defaults` can carry:
+// 0 per entry only; 1 hoisted into `defaults` when all entries agree; 2 `defaults` holds other
+// values and every entry overrides all of them explicitly.
+func writeConfig(fn string, c conf, u *universe, addr map[string]string, variant int) {
 	var b strings.Builder
 	b.WriteString("version: 1\ncreds:\n")
 	for _, n := range []string{"src", "tgt", "oth"} {
@@ -542,6 +599,29 @@ func writeConfig(fn string, c conf, u *universe, addr map[string]string) {
 	b.WriteString("defaults:\n  skipDockerConfig: true\n")
 	if c.Parallel > 0 {
 		fmt.Fprintf(&b, "  parallel: %d\n", c.Parallel)
+	}
+	same, allBackup := true, true
+	for _, e := range c.Entries {
+		if optLines(e, "", true) != optLines(c.Entries[0], "", true) {
+			same = false
+		}
+		if e.Backup == "" || e.Backup == "none" {
+			allBackup = false
+		}
+	}
+	if variant == 1 && !same {
+		variant = 0
+	}
+	switch variant {
+	case 1:
+		b.WriteString(optLines(c.Entries[0], "  ", false))
+	case 2:
+		// values no entry uses; every entry overrides them below
+		b.WriteString("  mediaTypes:\n    - application/vnd.example.unused\n")
+		b.WriteString("  referrers: true\n  digestTags: true\n  fastCheck: true\n  forceRecursive: true\n")
+		if allBackup {
+			b.WriteString("  backup: 'dflt-{{.Ref.Tag}}'\n")
+		}
 	}
 	b.WriteString("sync:\n")
 	fl := func(key string, allow, deny []filter, pool []string) {
@@ -564,11 +644,14 @@ func writeConfig(fn string, c conf, u *universe, addr map[string]string) {
 		}
 	}
 	for _, e := range c.Entries {
+		if e.TReg != "tgt" && e.TReg != "src" {
+			fatal("entry target registry %q", e.TReg)
+		}
 		switch e.Type {
 		case "image":
-			fmt.Fprintf(&b, "  - source: src.test/%s:%s\n    target: tgt.test/%s:%s\n", e.SRepo, u.conc(e.STag), e.TRepo, u.conc(e.TTag))
+			fmt.Fprintf(&b, "  - source: src.test/%s:%s\n    target: %s.test/%s:%s\n", e.SRepo, u.conc(e.STag), e.TReg, e.TRepo, u.conc(e.TTag))
 		case "repository":
-			fmt.Fprintf(&b, "  - source: src.test/%s\n    target: tgt.test/%s\n", e.SRepo, e.TRepo)
+			fmt.Fprintf(&b, "  - source: src.test/%s\n    target: %s.test/%s\n", e.SRepo, e.TReg, e.TRepo)
 		case "registry":
 			fmt.Fprintf(&b, "  - source: src.test\n    target: tgt.test\n")
 		default:
@@ -580,22 +663,8 @@ func writeConfig(fn string, c conf, u *universe, addr map[string]string) {
 		if e.Platform != "" {
 			fmt.Fprintf(&b, "    platform: %s\n", platLong[e.Platform])
 		}
-		if len(e.Mts) > 0 {
-			b.WriteString("    mediaTypes:\n")
-			for _, m := range e.Mts {
-				fmt.Fprintf(&b, "      - %s\n", mtLong[m])
-			}
-		}
-		if e.Backup != "" && e.Backup != "none" {
-			fmt.Fprintf(&b, "    backup: %s\n", yq(backupTpl[e.Backup]))
-		}
-		for _, sw := range []struct {
-			k string
-			v bool
-		}{{"referrers", e.Referrers}, {"digestTags", e.DigestTags}, {"fastCheck", e.FastCheck}, {"forceRecursive", e.Force}} {
-			if sw.v {
-				fmt.Fprintf(&b, "    %s: true\n", sw.k)
-			}
+		if variant != 1 {
+			b.WriteString(optLines(e, "    ", variant == 2))
 		}
 	}
 	if err := os.WriteFile(fn, []byte(b.String()), 0o600); err != nil {
@@ -634,6 +703,11 @@ func runScenario(s *scenario, u *universe, regsync, work string, timeout time.Du
 
 	w := &world{u: u, net: simreg.NewNet(), names: []string{"src", "tgt", "oth"}, hosts: map[string]*simreg.Host{}}
 	rec := &recorder{}
+	var jit *jitter
+	if s.Conf.Parallel > 0 && len(s.Conf.Entries) > 1 {
+		h := sha256.Sum256([]byte(s.ID))
+		jit = &jitter{seed: uint64(h[0])<<8 | uint64(h[1])}
+	}
 	addr := map[string]string{}
 	var servers []*http.Server
 	for _, n := range w.names {
@@ -717,7 +791,7 @@ func runScenario(s *scenario, u *universe, regsync, work string, timeout time.Du
 			fatal("listen on loopback: %v", err)
 		}
 		addr[n] = ln.Addr().String()
-		srv := &http.Server{Handler: hostHandler{net: w.net, name: n}}
+		srv := &http.Server{Handler: hostHandler{net: w.net, name: n, jitter: jit}}
 		servers = append(servers, srv)
 		go func() { _ = srv.Serve(ln) }()
 	}
@@ -758,7 +832,8 @@ func runScenario(s *scenario, u *universe, regsync, work string, timeout time.Du
 		defer os.RemoveAll(dir)
 	}
 	cfg := filepath.Join(dir, "regsync.yml")
-	writeConfig(cfg, s.Conf, u, addr)
+	hv := sha256.Sum256([]byte("variant " + s.ID))
+	writeConfig(cfg, s.Conf, u, addr, int(hv[0])%3)
 
 	nrun := 0
 	for _, st := range s.Steps {
